@@ -42,7 +42,9 @@
 (*   Peek i n status raw            pack number i, retained, read again    *)
 (*   ApplyConfig g obs              configuration naming the keys of g     *)
 (*   End npacks nrefused            end of the history                     *)
-(*   Panic / Alien / Hang           no action: never accepted              *)
+(*   Panic / Alien / Hang / Crash   no action: never accepted (Crash: the   *)
+(*                                  process died of a panic in a goroutine *)
+(*                                  the sender started)                    *)
 (*                                                                         *)
 (* Event order = order of appends to one mutex-protected log.  Producer    *)
 (* events are logged BEFORE the call, worker events AFTER the step, so a   *)
@@ -85,7 +87,7 @@ W     == UNCHANGED wire /\ wsel' = stopped'     \* a worker event
 
 TraceReset ==
   /\ Step("Reset")
-  /\ mode' = "none" /\ ctxk' = "none" /\ ticks' = 0 /\ settings' = Defaults /\ configured' = FALSE
+  /\ mode' = "none" /\ ctxk' = "none" /\ ticks' = 0 /\ wq0' = FALSE /\ settings' = Defaults /\ configured' = FALSE
   /\ queue' = <<>> /\ accB' = <<>> /\ refused' = {}
   /\ mem' = << <<>> >> /\ blen' = 0 /\ live' = <<>> /\ count' = 0 /\ firstTime' = 0
   /\ wpc' = "off" /\ wcur' = <<>> /\ wret' = "off"
@@ -107,7 +109,8 @@ TracePoll     == Step("Poll") /\ (\E s \in Between(wsel, stopped) : WTop(FALSE, 
 TraceStopSeen == Step("StopSeen") /\ (\E s \in Between(wsel, stopped) : WTop(TRUE, s)) /\ St(Ev) /\ W
 
 TraceTake == /\ Step("Take") /\ queue # <<>> /\ Head(queue).id = Ev.id /\ WTake /\ St(Ev) /\ W
-TraceIdle == /\ Step("Idle") /\ WIdle /\ St(Ev) /\ W
+\* qlen is reported only when no producer can be running: every Add logged so far had returned when the wait began
+TraceIdle == /\ Step("Idle") /\ WIdle(Has(Ev.st, "qlen")) /\ St(Ev) /\ W
 
 TraceAppendCall == Step("AppendCall") /\ AppendCall(Rec(Ev.r)) /\ Quiet
 TraceAppendRet  == Step("AppendRet") /\ wpc = "off" /\ UNCHANGED vars /\ Quiet
